@@ -65,3 +65,10 @@ func (t *TransactionCancelTimer) Stop() {
 	// a second Stop() must not close the channel again
 	t.done = nil
 }
+
+// IsRunning returns true if the timer was started and not stopped since.
+func (t *TransactionCancelTimer) IsRunning() bool {
+	t.doneMutex.Lock()
+	defer t.doneMutex.Unlock()
+	return t.done != nil
+}
